@@ -17,6 +17,7 @@ goroutine can cause (late timer, a datagram handed in later than scripted) is re
 times and reported only if it fails every time."""
 import itertools
 from lib import *
+from props import nlrun
 
 TARGETS = ["Props/C12.vo", "Run/Eval_C12.vo"]
 HEADER = ("From Coq Require Import NArith List Bool.\nFrom UPF Require Import Model.Retrans Run.Eval_C12.\n"
@@ -532,6 +533,55 @@ def judge(cases, obs, tag):
     return fails, mism, len(terms)
 
 
+# ------------------------------------------------------------------------------------- node-level leg (monitor only)
+
+def gen_node_leg():
+    """Heartbeat Requests over UDP to a real PFCPNode: the peer may have no PFCPConn at that moment (before it
+    associates, after its association was released or timed out) - `answered at any time, before or after association`."""
+    S = nlrun.step
+    return [
+        {"name": "node:hb-first-datagram", "sc": {"peers": 1, "steps": [S("hb")]}},
+        {"name": "node:hb-before-and-after-setup", "sc": {"peers": 1, "steps": [S("hb"), S("hb"), S("setup"), S("hb"), S("hb")]}},
+        {"name": "node:hb-two-peers", "sc": {"peers": 2, "steps": [S("hb", 0), S("setup", 1), S("hb", 1), S("hb", 0), S("setup", 0), S("hb", 0)]}},
+        {"name": "node:hb-after-release", "sc": {"peers": 1, "steps": [S("setup"), S("hb"), S("release"), S("wait_forgotten"), S("hb"), S("hb"),
+                                                                       S("setup"), S("hb")]}},
+        {"name": "node:hb-after-release-with-sessions", "sc": {"peers": 1, "steps": [S("setup"), S("establish", k=0), S("establish", k=1), S("release"),
+                                                                                     S("wait_forgotten"), S("hb")]}},
+        {"name": "node:hb-after-read-timeout", "sc": {"peers": 1, "read_timeout_ms": 500,
+                                                      "steps": [S("setup"), S("hb"), S("wait_forgotten", ms=8000), S("hb"), S("hb")]}},
+        {"name": "node:hb-with-monitor", "sc": {"peers": 1, "hb": True, "hb_interval_ms": 40, "resp_timeout_ms": 2000,
+                                                "steps": [S("hb"), S("setup"), S("sleep", ms=150), S("hb"), S("release"), S("wait_forgotten"), S("hb")]}},
+    ]
+
+
+def node_leg_monitor(item, r):
+    ab = nlrun.abnormal(r)
+    if ab:
+        return [("node-leg:abnormal-exit", ab)]
+    o = r["obs"]
+    F = []
+    for nt in o["notes"]:
+        F.append(("node-leg:step-failed:" + nt[:40], nt))
+    state = {}          # per peer: "none" (no association yet), "assoc", "ended"
+    for x in o["results"]:
+        st = state.get(x["p"], "none")
+        if x["op"] == "setup":
+            state[x["p"]] = "assoc"
+            if not x["answered"] or x["cause"] != ACCEPTED:
+                F.append(("node-leg:setup-not-accepted", str(x)))
+        elif x["op"] == "release":
+            state[x["p"]] = "ended"
+        elif x["op"] == "hb":
+            if item["name"] == "node:hb-after-read-timeout" and st == "assoc" and any(y["op"] == "hb" and y["seq"] < x["seq"] for y in o["results"]):
+                st = "ended"
+            when = {"none": "before-association", "assoc": "while-associated", "ended": "after-association-ended"}[st]
+            if not x["answered"]:
+                F.append((f"heartbeat-unanswered:{when}", f"{item['name']}: Heartbeat Request seq {x['seq']} got no Heartbeat Response"))
+            elif x["type"] != "Heartbeat Response" or not x["seq_ok"] or not x["has_ts"]:
+                F.append((f"heartbeat-answer-wrong:{when}", f"{item['name']}: {x}"))
+    return F
+
+
 def run(tier, seed, replay=None):
     ck = Check("C12", tier, seed)
     ck.trusted = COMMON_TRUSTED + [
@@ -541,6 +591,8 @@ def run(tier, seed, replay=None):
         "go-pfcp codec (message.Parse / MarshalTo; 3-octet sequence number) on both sides of the fake connection",
         "harness/go/verif_l1_test.go for the one scenario with the real bess plug-in: in-process BESS gRPC server that is stopped and restarted",
         "Go runtime timers (time.Timer / time.Ticker never fire early); timestamps are monotonic time.Since values",
+        "harness/go/verif_nl_test.go + tools/props/nlrun.py: node-level leg - a real PFCPNode (handleNewPeers, NewPFCPConn, Serve) over UDP, one "
+        "process per scenario; this leg is monitor-only (no model counterpart)",
     ]
     ck.assumptions = [
         "time is the trace: a Timeout event is the expiry of resp_timeout after the latest transmission; the model is fed a Timeout wherever "
@@ -642,6 +694,15 @@ def run(tier, seed, replay=None):
         d2 = {}
         run_soak(ck, binary, rng, lambda c_, it, ob: [f for f in l1.mon_c02(c_, it, ob)], d2, only=["datapath-down-and-up"])
         dist.update(d2)
+    # node level: real PFCPNode over UDP, heartbeats from peers with and without a PFCPConn (monitor only, no model)
+    if replay is None:
+        items = gen_node_leg()
+        for it, r in zip(items, nlrun.run_all(binary, [it["sc"] for it in items], tag="c12")):
+            ck.count(it["name"], True)
+            fs = node_leg_monitor(it, r)
+            dist["node-leg" + (":finding" if fs else ":clean")] = dist.get("node-leg" + (":finding" if fs else ":clean"), 0) + 1
+            for sig, text in fs:
+                ck.fail(sig, text, {"input": it, "impl": {k: v for k, v in r.items() if k != "tail"}})
     ck.distribution = {"classes": dist, "model_branches_hit": cov, "coq_case_terms": nterms}
     ck.samples = [{"input": c, "impl": {k: (v[:6] if isinstance(v, list) else v) for k, v in o.items()}}
                   for c, o in list(zip(cases, obs))[-2:]]
